@@ -3,6 +3,10 @@
 set -eu
 ROOT=$(cd "$(dirname "$0")" && pwd)
 mkdir -p "$ROOT/target" "$ROOT/evidence" "$ROOT/replays"
+if ! cmp -s /repo/Cargo.lock "$ROOT/target/.repo-lock-seen"; then
+    cp /repo/Cargo.lock "$ROOT/harness/Cargo.lock"
+    cp /repo/Cargo.lock "$ROOT/target/.repo-lock-seen"
+fi
 cd "$ROOT/harness"
 export CARGO_NET_OFFLINE=true
 cargo build --offline 2>&1 | tail -3
